@@ -181,7 +181,10 @@ PROPS["C08"] = dict(
 PROPS["C06"] = dict(
     props_file="Props/C06.v", gen=["JumpGen"],
     suites=[dict(suite="strategy", corr=["diff"], monitors=["mon_affinity", "mon_valid", "mon_remap"],
-                 classifiers={}, nontrivial="nt_c06")],
+                 classifiers={}, nontrivial="nt_c06"),
+            # "a valid eligible backend ... regardless of concurrent traffic": a pick against health flips, every interleaving
+            dict(suite="sched", corr=["diff_obs", "diff_trace"], monitors=["mon_sched_prop", "mon_sched_finished"], classifiers={},
+                 nontrivial="nt_sched", filter=lambda c: c["repl"].get("scenario") == 4)],
     rule="real IPHash / IPHashConsistent strategy objects: 18 client strings (IPv4, IPv6, zone, lists, spaces, junk) via XFF / "
          "X-Real-IP / RemoteAddr with varying port and path, the same clients before and after append / flag / remove; direct "
          "jumpHash calls on 34 adversarial 32-bit keys (extreme LCG iterates, found by exhaustive search), LCG-inverted 64-bit keys "
@@ -229,7 +232,10 @@ PROPS["C02"] = dict(
     suites=[dict(suite="lbseq", corr=["diff_begin"], monitors=["mon_c02_disp", "mon_c02_503"],
                  classifiers={}, nontrivial="nt_c02"),
             # ejection by the active checker: no traffic inside the window whatever later probes say
-            dict(suite="probe", corr=["diff"], monitors=["mon_c04_probe_window"], classifiers={}, nontrivial="nt_c04")],
+            dict(suite="probe", corr=["diff"], monitors=["mon_c04_probe_window"], classifiers={}, nontrivial="nt_c04"),
+            # no 503 while a backend is healthy throughout, no pick of a backend that is ejected throughout, under every interleaving with flips
+            dict(suite="sched", corr=["diff_obs", "diff_trace"], monitors=["mon_sched_prop", "mon_sched_finished"], classifiers={},
+                 nontrivial="nt_sched", filter=lambda c: c["repl"].get("scenario") == 4)],
     rule="probe suite: backends ejected by failed probes, later probes scripted ok inside the window, traffic in between; "
          "balancer histories under virtual time: 5 strategies x pools 1..5 (+admin add/remove), passive ejections by 5xx/502, "
          "windows straddled by +-1 ns gaps, overlapping requests held open by the scripted transports; non-trivial = the pool has "
@@ -514,7 +520,9 @@ PROPS["C19"] = dict(
 
 PROPS["C12"] = dict(
     props_file="Props/C12.v", gen=["Access"],
-    suites=[dict(suite="race", corr=[], monitors=["mon_c12_no_race", "mon_c12_no_panic", "mon_c12_no_deadlock"], classifiers={}, nontrivial="nt_c12")],
+    suites=[dict(suite="race", corr=[], monitors=["mon_c12_no_race", "mon_c12_no_panic", "mon_c12_no_deadlock"], classifiers={}, nontrivial="nt_c12"),
+            # panics and deadlocks that need one particular interleaving: the schedule-replay scenarios (all of them)
+            dict(suite="sched", corr=["diff_obs", "diff_trace"], monitors=["mon_sched_prop", "mon_sched_finished"], classifiers={}, nontrivial="nt_sched")],
     rule="race suite: the real balancer built with the race detector; 8 / 16 / 32 / 64 goroutines run a mix of client traffic (ok / 5xx / "
          "unreachable / aborted mid-body), admin API calls (list, add, remove, strategy switch over HTTP), metrics and health reads, "
          "ListBackends, ejections and lazy expiries, with active / passive checks, breaker, limiter and websocket pool switched on and off, "
